@@ -218,13 +218,29 @@ pub fn run_job(job: &Value, slot: u32, serial: u32, progress: &Progress) -> JobO
     for h in handles {
         hosts.push(h.join().unwrap_or(json!({"host": -1, "thread_panic": true})));
     }
+    // every worker thread of this job must be gone before the next job starts (after a panic the
+    // other workers are still unwinding when execute_blocking returns)
+    let unwind_ms = job["unwind_ms"].as_u64().unwrap_or(6000);
+    let t1 = Instant::now();
+    let lingering = loop {
+        let s = session.rec.workers_started.load(Ordering::SeqCst);
+        let f = session.rec.workers_finished.load(Ordering::SeqCst);
+        if f >= s {
+            break 0;
+        }
+        if t1.elapsed() > Duration::from_millis(unwind_ms) {
+            break s - f;
+        }
+        std::thread::sleep(Duration::from_millis(2));
+    };
+    let unwind_s = t1.elapsed().as_secs_f64();
     progress.in_job.store(false, Ordering::SeqCst);
     let wall = t0.elapsed().as_secs_f64();
     let total = session.rec.count.load(Ordering::Relaxed);
     let events = session.finish();
     let panics = std::mem::take(&mut *PANIC_LOG.lock());
     let result = json!({"id": id, "hosts": hosts, "nhosts": nhosts, "wall_s": wall, "events": total,
-        "panics": panics});
+        "panics": panics, "lingering": lingering, "unwind_s": unwind_s});
     JobOutcome { result, events }
 }
 
